@@ -7,7 +7,7 @@ from checks._folcommon import tabs_of, is_inference, moved, worlds_of, amount_of
 
 def oracle(rec):
     prev = None
-    w = worlds_of(rec["prog"])
+    w = worlds_of(rec)
     for k, op, out, tabs in tabs_of(rec):
         if prev is not None and is_inference(op):
             zero = amount_of(out) == "0"
